@@ -65,13 +65,25 @@ type PFCPConn struct {
 
 	metrics.InstrumentPFCP
 
-	hbReset     chan struct{}
+	hbReset chan struct{}
+	// hbMu guards hbCtxCancel: the monitor goroutine sets it, Shutdown reads it
+	hbMu        sync.Mutex
 	hbCtxCancel context.CancelFunc
 
 	pendingReqs sync.Map
 }
 
 func (pConn *PFCPConn) startHeartBeatMonitor() {
+	pConn.hbMu.Lock()
+
+	select {
+	case <-pConn.shutdown:
+		// Shutdown has already looked for a monitor to cancel
+		pConn.hbMu.Unlock()
+		return
+	default:
+	}
+
 	// Stop HeartBeat routine if already running
 	if pConn.hbCtxCancel != nil {
 		pConn.hbCtxCancel()
@@ -80,6 +92,8 @@ func (pConn *PFCPConn) startHeartBeatMonitor() {
 
 	hbCtx, hbCancel := context.WithCancel(pConn.ctx)
 	pConn.hbCtxCancel = hbCancel
+
+	pConn.hbMu.Unlock()
 
 	logger.PfcpLog.With("interval", pConn.upf.hbInterval).Infoln("starting Heartbeat timer")
 
@@ -240,10 +254,14 @@ func (pConn *PFCPConn) Shutdown() {
 func (pConn *PFCPConn) doShutdown() {
 	close(pConn.shutdown)
 
+	pConn.hbMu.Lock()
+
 	if pConn.hbCtxCancel != nil {
 		pConn.hbCtxCancel()
 		pConn.hbCtxCancel = nil
 	}
+
+	pConn.hbMu.Unlock()
 
 	// Cleanup all sessions in this conn
 	for _, sess := range pConn.store.GetAllSessions() {
